@@ -115,9 +115,8 @@ Proof.
   cbn [zip_grants nth]. apply IH. cbn [zip_grants length] in Hk. lia.
 Qed.
 
-(* a grant whose fee row is missing is silently dropped: the document names
-   two grants (two "Grant Number" rows, 100 and 200 exercised shares), the
-   parse succeeds with ONE benefit *)
+(* the regression document of the fixed defect c454485: two grants named, the
+   second without its fee row -- now a diagnostic *)
 Definition dropped_grant_witness : text := t "
 Account Number 11223344
 Tax Payment Method Sell-to-cover
@@ -158,13 +157,122 @@ Definition grant_number_rows (s : text) : nat :=
   | None => O
   end.
 
-Lemma eso_grant_dropped :
+Lemma eso_incomplete_rejected :
   grant_number_rows dropped_grant_witness = 2%nat /\
-  exists b, parse_text dropped_grant_witness = Ok (Benefits [b])
-            /\ tb_note b = t "Option Grant 1234" /\ Qceqb (tb_shares b) (QcZ 100) = true
-            /\ match tb_stc_fee b with Some f => Qceqb f (QcZ 10) | None => false end = true.
+  parse_text dropped_grant_witness = Rej (RejOther TErr.eso_incomplete).
+Proof. split; vm_compute; reflexivity. Qed.
+
+(* ====================================================================
+   3. parse_eso: either an error or exactly one benefit per `Grant <n>` marker,
+      the k-th built from the k-th row of each kind.                        *)
+Lemma rows_complete_spec n a b c d e :
+  rows_complete n a b c d e = true -> a = n /\ b = n /\ c = n /\ d = n /\ e = n.
 Proof.
-  split; [vm_compute; reflexivity|].
-  eexists. split; [vm_compute; reflexivity|].
-  split; [vm_compute; reflexivity|]. split; vm_compute; reflexivity.
+  unfold rows_complete. intros H. repeat (apply andb_true_iff in H; destruct H as [H ?]).
+  repeat split; apply Nat.eqb_eq; assumption.
+Qed.
+
+Definition grant_markers (body : text) : nat := length (all_matches m_grant_idx body).
+
+Theorem eso_data_complete s e : parse_eso_data s = Ok e ->
+  exists header body nums fmvs shares sales fees,
+    eso_split s = Some (header, body) /\
+    search_for_rows k_grant_number vp_digits body = Ok nums /\
+    search_for_dec_rows k_exercise_mv true body = Ok fmvs /\
+    search_for_dec_rows k_shares_exercised false body = Ok shares /\
+    search_for_dec_rows k_sale_price true body = Ok sales /\
+    search_for_dec_rows k_comission_fee true body = Ok fees /\
+    length nums = grant_markers body /\ length fmvs = grant_markers body /\
+    length shares = grant_markers body /\ length sales = grant_markers body /\
+    length fees = grant_markers body /\ length (e_grants e) = grant_markers body /\
+    forall k, (k < grant_markers body)%nat ->
+      nth k (e_grants e) dg
+      = {| g_num := u64_or_zero (nth k nums []); g_fmv := nth k fmvs 0%Qc; g_shares := nth k shares 0%Qc;
+           g_sale := nth k sales 0%Qc; g_fee := nth k fees 0%Qc |}.
+Proof.
+  unfold parse_eso_data. destruct (eso_split s) as [[header body]|]; [|discriminate].
+  destruct (search_for_rows k_grant_number vp_digits body) as [nums| |] eqn:E1; cbn [bind]; try discriminate.
+  destruct (search_for_dec_rows k_exercise_mv true body) as [fmvs| |] eqn:E2; cbn [bind]; try discriminate.
+  destruct (search_for_dec_rows k_shares_exercised false body) as [shares| |] eqn:E3; cbn [bind]; try discriminate.
+  destruct (search_for_dec_rows k_sale_price true body) as [sales| |] eqn:E4; cbn [bind]; try discriminate.
+  destruct (search_for_dec_rows k_comission_fee true body) as [fees| |] eqn:E5; cbn [bind]; try discriminate.
+  destruct (rows_complete _ _ _ _ _ _) eqn:RC; cbn [negb]; [|discriminate].
+  apply rows_complete_spec in RC. destruct RC as (L1 & L2 & L3 & L4 & L5).
+  destruct (parse_common s) as [sym| |]; cbn [bind]; try discriminate.
+  destruct (get1 m_exercise_type s) as [[ty r1]| |]; cbn [bind]; try discriminate.
+  destruct (get1 m_exercise_date s) as [[d r2]| |]; cbn [bind]; try discriminate.
+  destruct (parse_mdy d) as [date| |]; cbn [bind]; try discriminate.
+  destruct (get1_dec m_eso_shares_sold header) as [sold| |]; cbn [bind]; try discriminate.
+  intros H. inversion H; subst e; clear H. cbn [e_grants].
+  exists header, body, nums, fmvs, shares, sales, fees. unfold grant_markers.
+  assert (LZ : length (zip_grants (all_matches m_grant_idx body) (map u64_or_zero nums) fmvs shares sales fees)
+               = length (all_matches m_grant_idx body)).
+  { rewrite zip_grants_length, map_length, L1, L2, L3, L4, L5. unfold min6. lia. }
+  repeat split; auto.
+  intros k Hk. rewrite zip_grants_nth by (rewrite LZ; exact Hk).
+  change 0 with (u64_or_zero []) at 1. rewrite map_nth. reflexivity.
+Qed.
+
+Definition db : tbenefit :=
+  {| tb_sec := []; tb_date := 0%Z; tb_settle := 0%Z; tb_price := 0%Qc; tb_shares := 0%Qc;
+     tb_stc_td := None; tb_stc_sd := None; tb_stc_price := None; tb_stc_shares := None; tb_stc_fee := None;
+     tb_note := []; tb_sell_note := None |}.
+
+Lemma eso_entries_each e ls fees : forall gs bs, eso_entries e ls fees gs = Ok bs ->
+  length bs = length gs /\
+  forall k, (k < length gs)%nat ->
+    tb_price (nth k bs db) = g_fmv (nth k gs dg) /\ tb_shares (nth k bs db) = g_shares (nth k gs dg)
+    /\ tb_note (nth k bs db) = k_option_grant_ ++ digits_of_N (g_num (nth k gs dg))
+    /\ tb_sec (nth k bs db) = e_sym e /\ tb_date (nth k bs db) = e_date e.
+Proof.
+  induction gs as [|g gs IH]; intros bs H; cbn [eso_entries] in H.
+  - inversion H; subst. split; [reflexivity|]. intros k Hk. cbn in Hk. lia.
+  - destruct (negb (Qceqb (g_sale g) ls)); [discriminate|].
+    destruct (eso_entries e ls fees gs) as [rest| |] eqn:E; cbn [bind] in H; try discriminate.
+    inversion H; subst bs; clear H. destruct (IH rest eq_refl) as [IL IK].
+    split; [cbn [length]; rewrite IL; reflexivity|].
+    intros k Hk. destruct k as [|k]; [cbn [nth tb_price tb_shares tb_note tb_sec tb_date]; repeat split|].
+    cbn [nth]. apply IK. cbn [length] in Hk. lia.
+Qed.
+
+Theorem eso_each_grant_once s bs : parse_eso s = Ok bs ->
+  exists e, parse_eso_data s = Ok e /\ length bs = length (e_grants e) /\
+    forall k, (k < length bs)%nat ->
+      tb_price (nth k bs db) = g_fmv (nth k (e_grants e) dg)
+      /\ tb_shares (nth k bs db) = g_shares (nth k (e_grants e) dg)
+      /\ tb_note (nth k bs db) = k_option_grant_ ++ digits_of_N (g_num (nth k (e_grants e) dg))
+      /\ tb_sec (nth k bs db) = e_sym e /\ tb_date (nth k bs db) = e_date e.
+Proof.
+  unfold parse_eso. destruct (parse_eso_data s) as [e| |]; cbn [bind]; try discriminate.
+  destruct (rev (e_grants e)) as [|lastg r]; [discriminate|].
+  destruct (fee_sum 0%Qc (e_grants e)) as [fees| |]; cbn [bind]; try discriminate.
+  intros H. exists e. split; [reflexivity|].
+  destruct (eso_entries_each e (g_sale lastg) fees (e_grants e) bs H) as [HL HK].
+  split; [exact HL|]. intros k Hk. apply HK. rewrite <- HL. exact Hk.
+Qed.
+
+Theorem eso_rows_complete_or_error s bs : parse_eso s = Ok bs ->
+  exists header body nums fmvs shares sales fees,
+    eso_split s = Some (header, body) /\
+    search_for_rows k_grant_number vp_digits body = Ok nums /\
+    search_for_dec_rows k_exercise_mv true body = Ok fmvs /\
+    search_for_dec_rows k_shares_exercised false body = Ok shares /\
+    search_for_dec_rows k_sale_price true body = Ok sales /\
+    search_for_dec_rows k_comission_fee true body = Ok fees /\
+    length bs = grant_markers body /\
+    length nums = length bs /\ length fmvs = length bs /\ length shares = length bs /\
+    length sales = length bs /\ length fees = length bs /\
+    forall k, (k < length bs)%nat ->
+      tb_price (nth k bs db) = nth k fmvs 0%Qc /\ tb_shares (nth k bs db) = nth k shares 0%Qc
+      /\ tb_note (nth k bs db) = k_option_grant_ ++ digits_of_N (u64_or_zero (nth k nums [])).
+Proof.
+  intros H. destruct (eso_each_grant_once s bs H) as (e & He & HL & HK).
+  destruct (eso_data_complete s e He) as (header & body & nums & fmvs & shares & sales & fees &
+    S0 & S1 & S2 & S3 & S4 & S5 & L1 & L2 & L3 & L4 & L5 & LG & NK).
+  exists header, body, nums, fmvs, shares, sales, fees.
+  assert (LB : length bs = grant_markers body) by (rewrite HL; exact LG).
+  repeat split; auto; try (rewrite LB; assumption).
+  - destruct (HK k H0) as (P & _). rewrite P, NK by (rewrite <- LB; exact H0). reflexivity.
+  - destruct (HK k H0) as (_ & P & _). rewrite P, NK by (rewrite <- LB; exact H0). reflexivity.
+  - destruct (HK k H0) as (_ & _ & P & _). rewrite P, NK by (rewrite <- LB; exact H0). reflexivity.
 Qed.
